@@ -251,6 +251,42 @@ class _LazyDict:
         return M()
 
 
+import dataclasses
+
+
+@dataclasses.dataclass(frozen=True)
+class FrozenError(Exception):
+    """An exception that is a frozen dataclass: python raises and catches it without trouble, but nobody can set an attribute on it."""
+    key: str = 'k'
+
+
+class _SelfForEverything(Exception):
+    def __getattribute__(self, name):
+        if name in ('__class__', '__dict__'):
+            return object.__getattribute__(self, name)
+        return self
+
+
+class _Label(str):
+    def __getitem__(self, item):
+        return ['not', 'text']
+
+
+class KeyWithLabel:
+    def __str__(self):
+        return _Label('alpha')
+
+
+class _MetaReprRaises(type):
+    def __repr__(cls):
+        raise RuntimeError('meta repr')
+
+
+def _no_text_at_all():
+    cls = _MetaReprRaises('Handle', (), {'__str__': lambda self: (_ for _ in ()).throw(RuntimeError('no str'))})
+    return cls()
+
+
 class _Target:
     pass
 
@@ -350,6 +386,9 @@ VALUES.update({
     'meta_name_raises': lambda: _of_meta(_MetaNameRaises), 'meta_name_int': lambda: _of_meta(_MetaNameInt),
     'meta_getattribute_raises': lambda: _of_meta(_MetaGetattribute), 'str_returns_unsliceable': StrReturnsSub, 'lazy_dict_mapping': _LazyDict,
 })
+VALUES.update({
+    'frozen_dataclass_exception': FrozenError, 'self_for_everything': _SelfForEverything, 'dict_key_str_subclass': lambda: {KeyWithLabel(): 1, 'beta': 2}, 'no_text_at_all': _no_text_at_all,
+})
 for _k in HALTS:
     VALUES['halt_' + _k] = (lambda k: (lambda: _halting(k)))(_k)
 
@@ -362,6 +401,7 @@ def _tb():
 
 
 SITES = ['local', 'watch', 'return', 'exception', 'self']
+RAISABLE = ['exc_args', 'exc_noargs', 'baseexc', 'exc_args_none', 'exc_args_raises', 'halt_args', 'frozen_dataclass_exception', 'self_for_everything']
 
 
 def bounds(tier):
@@ -374,6 +414,12 @@ def cases(tier, seed):
         for site in SITES:
             for k in (1, 2, 3):
                 out.append({'k': 'value', 'v': v, 'site': site, 'n': k})
+    # exception objects of the application, raised by a watch expression and by a log field
+    for v in RAISABLE:
+        for k in (1, 2):
+            out.append({'k': 'value', 'v': v, 'site': 'raised-by-watch', 'n': k})
+    for ft in ('single_frame', 'all_frame', 'no_frame'):
+        out.append({'k': 'odd-caller', 'ft': ft})
     from . import c05
     specs = c05.fam(tier)
     if tier == 'quick':
@@ -549,6 +595,8 @@ def run_case(ctx, desc):
         return
     if desc['k'] == 'graph':
         return case_graph(ctx, desc)
+    if desc['k'] == 'odd-caller':
+        return case_odd_caller(ctx, desc)
     return case_value(ctx, desc)
 
 
@@ -599,6 +647,50 @@ def case_graph(ctx, desc):
     ctx.outcome(('graph', desc['n'], len(a1.snapshots[0].var_lookup)))
 
 
+ODD_CALLER_SRC = '''
+class Namespace:
+    """What python needs of the namespace of exec() or of a class body (metaclass __prepare__): items, nothing else."""
+    def __init__(self):
+        self.d = {}
+    def __getitem__(self, k):
+        return self.d[k]
+    def __setitem__(self, k, v):
+        self.d[k] = v
+    def __delitem__(self, k):
+        del self.d[k]
+def work(n):
+    m = n + 1
+    return m
+def main():
+    ns = Namespace()
+    exec(compile('r = work(4)', 'c06odd.py', 'exec'), globals(), ns)
+    return ns['r']
+'''
+
+
+def case_odd_caller(ctx, desc):
+    """The function with the tracepoint is called from a frame whose variables live in a mapping without get() / keys()."""
+    from deep.api.tracepoint.trigger import build_trigger
+    ns, path = rig.load_program('c06odd', ODD_CALLER_SRC)
+    agent = rig.Agent(plugins=[])
+    line = ODD_CALLER_SRC.split('\n').index('    m = n + 1') + 1
+    agent.install([build_trigger('t', 'c06odd.py', line, {'fire_count': '-1', 'fire_period': '0', 'frame_type': desc['ft']}, ['n'], [])])
+    with rig.VirtualClock():
+        run = Forwarder({path}, agent.handler).call(ns['main'])
+    ctx.case()
+    ctx.nt(('odd-caller', desc['ft']))
+    ctx.outcome(('odd-caller', desc['ft'], len(agent.snapshots)))
+    if run.escaped or run.result != 5:
+        ctx.violation('C06/odd-caller/program-disturbed', f'result {run.result} escaped {run.escaped[:1]}', desc)
+    elif len(agent.snapshots) != 1:
+        ctx.violation('C06/snapshot-lost/caller-frame-namespace', f'frame_type {desc["ft"]}: the function is called from exec() with a minimal namespace object: '
+                      f'{len(agent.snapshots)} snapshots; agent log {[r[2][:120] for r in rig.SINK.records[-2:]]}', desc)
+    else:
+        top = {v.name for v in agent.snapshots[0].frames[0].variables}
+        if desc['ft'] != 'no_frame' and top != {'n'}:
+            ctx.violation('C06/odd-caller/variables', f'top frame variables {sorted(top)}, expected [n]', desc)
+
+
 def case_value(ctx, desc):
     from deep.api.tracepoint.trigger import Trigger, FunctionLocation, Location, LocationAction
     name, site, k = desc['v'], desc['site'], desc['n']
@@ -614,6 +706,14 @@ def case_value(ctx, desc):
         ns, path, line, base = snapref.frame_function(list(loc))
         ns['HV'] = value
         agent, run, _ = snapref.take(loc, [{'watches': ['HV', 'n']}] * k)
+    elif site == 'raised-by-watch':
+        # the watch expression raises the value (an exception object of the application's own making)
+        ns, path, line, base = snapref.frame_function(list(loc))
+
+        def hv():
+            raise value
+        ns['HV'] = hv
+        agent, run, _ = snapref.take(loc, [{'watches': ['HV()', 'n'], 'log_msg': 'v {HV()} n {n}'}] * k, plugins=[rig.RecLogger(rig.Journal())])
     else:
         # return value / raised exception reach the collector through capture callbacks
         src = ('HV = None\nclass Carrier(Exception):\n    pass\n'
@@ -640,7 +740,7 @@ def case_value(ctx, desc):
         ctx.violation(f'C06/snapshot-lost/{site}/{label}', f'{label} as {site}, {k} tracepoint(s): {len(snaps)} snapshots delivered; agent log: {why}', desc)
         return
     for s in snaps:
-        if site in ('local', 'self', 'watch'):
+        if site in ('local', 'self', 'watch', 'raised-by-watch'):
             if not check_friendly(ctx, s, desc, label):
                 return
         top = {v.name: v for v in s.frames[0].variables}
@@ -648,6 +748,18 @@ def case_value(ctx, desc):
             nm = 'self' if site == 'self' else 'h'
             if nm not in top or top[nm].vid not in s.var_lookup:
                 ctx.violation(f'C06/offending-value-has-no-entry/{label}', f'{label} local has no entry; top frame {sorted(top)}', desc)
+                return
+        elif site == 'raised-by-watch':
+            ws = [w for w in s.watches if w.expression == 'HV()' and w.source == 'WATCH']
+            if len(ws) != 1 or not ws[0].error:
+                ctx.violation(f'C06/raising-watch-has-no-error/{label}', f'watch raising a {label}: results {[(w.expression, w.error) for w in s.watches]}', desc)
+                return
+            wn = [w for w in s.watches if w.expression == 'n' and w.source == 'WATCH']
+            if len(wn) != 1 or wn[0].error or s.var_lookup[wn[0].result.vid].value != '5':
+                ctx.violation(f'C06/other-watch-altered/{label}', f'watch n next to a watch raising a {label} is wrong', desc)
+                return
+            if not (s.log_msg or '').endswith(' n 5'):
+                ctx.violation(f'C06/other-log-field-lost/{label}', f'log message next to a field raising a {label}: {s.log_msg!r}', desc)
                 return
         elif site == 'watch':
             ws = [w for w in s.watches if w.expression == 'HV']
